@@ -17,9 +17,10 @@ def toml_key(name):
     return "'" + name + "'" if '"' in name else '"' + name + '"'
 
 
-def make_repo(pr, target, state, pat_name="ver.txt", other="notes.txt", extra_dirty=None):
-    """build a real git repo in which `target` ('pattern' | 'config' | 'unrelated') is in `state`"""
-    pr.write_text("bumpver.toml", CFG % toml_key(pat_name))
+def make_repo(pr, target, state, pat_name="ver.txt", other="notes.txt", extra_dirty=None, key=None):
+    """build a real git repo in which `target` ('pattern' | 'config' | 'unrelated') is in `state`; `key`: how the pattern file is
+    written in file_patterns (a valid but non-normalised spelling such as ./ver.txt names the same file)"""
+    pr.write_text("bumpver.toml", CFG % toml_key(key or pat_name))
     pr.write_text(pat_name, "version 1.2.3\n")
     pr.write_text(other, "notes\n")
     pr.write_text("spare.txt", "spare\n")
@@ -85,13 +86,13 @@ def quoted_region(pat_name, target, state):
     return None
 
 
-def e2e(target, state, allow, pat_name="ver.txt", extra_dirty=None):
-    case = {"kind": "e2e", "target": target, "state": state, "allow_dirty": allow, "pattern_file": pat_name, "extra_dirty": extra_dirty}
+def e2e(target, state, allow, pat_name="ver.txt", extra_dirty=None, key=None):
+    case = {"kind": "e2e", "target": target, "state": state, "allow_dirty": allow, "pattern_file": pat_name, "extra_dirty": extra_dirty, "key": key}
     with sandbox.Project("c11") as pr:
-        fname = make_repo(pr, target, state, pat_name, extra_dirty=extra_dirty)
+        fname = make_repo(pr, target, state, pat_name, extra_dirty=extra_dirty, key=key)
         if fname is None:
             return None, None, None
-        status = pr.git("status", "--porcelain")
+        status = pr.git("status", "--porcelain", "--untracked-files=all")      # what bumpver's status command prints
         case["status"] = status
         before = pr.snapshot()
         head0 = pr.git("rev-parse", "HEAD").strip()
@@ -168,6 +169,14 @@ def run(chk, driver, tier):
         chk.count("extra_dirty:" + extra)
         chk.oracle_case(case, verdict)
         ops.append({"op": "dirty", "status": status, "files": ["bumpver.toml", "ver.txt"], "allow": allow})
+    # the pattern file written in file_patterns as a valid but non-normalised path: it is still the file that carries the pattern
+    for (pat_name, key), state, allow in itertools.product([("ver.txt", "./ver.txt"), ("src/ver.txt", "src//ver.txt"), ("src/ver.txt", "./src/ver.txt"), ("src/ver.txt", "src/./ver.txt")],
+                                                           ["clean", "mod_unstaged", "mod_staged", "untracked", "added"], [False, True]):
+        case, verdict, status = e2e("pattern", state, allow, pat_name, key=key)
+        if case is None:
+            continue
+        chk.count("key_spelling:" + key)
+        chk.oracle_case(case, verdict)
     chk.exhaustive = True
     # pattern files whose names git C-quotes: known finding F-C11-quoted
     for pat_name in ["a b.txt", "é.txt"]:
@@ -193,5 +202,5 @@ def search(chk, driver, tier):
 
 def replay(payload):
     c = payload["case"]
-    case, verdict, _ = e2e(c["target"], c["state"], c["allow_dirty"], c.get("pattern_file", "ver.txt"), c.get("extra_dirty"))
+    case, verdict, _ = e2e(c["target"], c["state"], c["allow_dirty"], c.get("pattern_file", "ver.txt"), c.get("extra_dirty"), c.get("key"))
     return verdict
